@@ -312,6 +312,7 @@ def run(ctx):
                 tag_sweep(ctx, vfs, t, range(0, 140) if ctx.quick else range(0, 1200), (0, 1, 81, 3600, 86400, 172800.5, 864000))
                 tag_sweep(ctx, vfs, t, (121, 202, 133, 512, 1000, 1001, 65536), range(0, 200))
                 # file times around New Year (week-based and calendar years differ there), a leap day, the epoch's first days
+                tag_sweep(ctx, vfs, t, (262143, 262144, 262145, 600000), (0, 5))  # files of one default chunk and more: the full answer is the whole new file
                 tag_sweep(ctx, vfs, t, (7, 0), (0, 0.5, 1), base=0.0)  # file times of exactly 0 (archives unpacked with zeroed time stamps), and just after
                 for base in (1735516800.0, 1609286400.0, 1451520000.0, 1709164800.0, 86400.0 * 3):
                     tag_sweep(ctx, vfs, t, (7,), (0, 3600, 86400, 2 * 86400, 3 * 86400, 4 * 86400, 40 * 86400), base=base)
@@ -347,6 +348,10 @@ def tag_sweep(ctx, vfs, t, sizes, offsets, base=1_700_000_000.0):
             ctx.mon("tag-sweep")
             if st != 200 or exc is not None:
                 ctx.violation("plain-request-not-200", {"iface": iface, "target": url_path, "size": size}, f"{st} {exc!r}")
+                return
+            if body != b"s" * size or h.get("content-length") != str(size):
+                ctx.violation("200-with-old-or-wrong-content", {"iface": iface, "target": url_path, "tag_sweep": {"now": {"size": size, "mtime_offset": off}}},
+                              f"{len(body)} body bytes, Content-Length {h.get('content-length')}, file size {size}")
                 return
             # the validators just handed out revalidate this very state, in every form ...
             for form, hd in (("etag", [("If-None-Match", h["etag"])]), ("weak", [("If-None-Match", "W/" + h["etag"])]), ("lm", [("If-Modified-Since", h["last-modified"])]),
